@@ -281,12 +281,12 @@ def run(ctx):
         if not h.problems:
             load_stream(ctx, g, h)
             deepcopy_stream(ctx, g, h)
-    for shape in ("setitem-same-list", "setslice-same-list"):
+    for shape in ("setitem-same-list", "setslice-same-list", "setslice-repeated-value"):
         w, us = world.d4_probe(g, shape)
         bad = world.oracle_cache(w, us)
         ctx.case("d4:" + shape, True)
         if bad:
-            ctx.add("oracle", "listwrapper-" + shape, "ir.modules assignment of a module already in the same list: " + "; ".join(bad[:2]),
+            ctx.add("oracle", "listwrapper-" + shape, "ir.modules assignment of a module already in the same list / named twice in the assigned list: " + "; ".join(bad[:2]),
                     {"shape": shape, "problems": bad})
     worldgen.compare(ctx, hists, "cache", "C03 uuid table correspondence")
     import loadedworld
